@@ -130,6 +130,12 @@ impl<K: AsRef<[u8]>, V: AsRef<[u8]>> Encoder<MapOperation<K, V>> for RawMapOpera
     }
 }
 
+fn bad_record_size(total_len: usize) -> FrameIoError {
+    FrameIoError::BadFrame(InvalidFrame::InvalidHeader {
+        problem: Text::from(format!("{}{}", BAD_RECORD_SIZE, total_len)),
+    })
+}
+
 impl Decoder for RawMapOperationDecoder {
     type Item = MapOperation<BytesMut, BytesMut>;
 
@@ -150,7 +156,9 @@ impl Decoder for RawMapOperationDecoder {
                         problem: Text::from(format!("{}{}", BAD_RECORD_SIZE, total_len)),
                     }));
                 }
-                let required = LEN_SIZE + total_len;
+                let required = LEN_SIZE
+                    .checked_add(total_len)
+                    .ok_or_else(|| bad_record_size(total_len))?;
                 if src.remaining() < required {
                     return Ok(None);
                 }
@@ -159,7 +167,10 @@ impl Decoder for RawMapOperationDecoder {
                 frame.advance(TAG_SIZE);
                 let key_len = frame.get_u64() as usize;
 
-                if key_len + LEN_SIZE + TAG_SIZE > total_len {
+                if key_len
+                    .checked_add(LEN_SIZE + TAG_SIZE)
+                    .map_or(true, |n| n > total_len)
+                {
                     return Err(FrameIoError::BadFrame(InvalidFrame::InvalidHeader {
                         problem: Text::from(format!("{}{}", BAD_KEY_SIZE, key_len)),
                     }));
@@ -175,7 +186,9 @@ impl Decoder for RawMapOperationDecoder {
                         problem: Text::from(format!("{}{}", BAD_RECORD_SIZE, total_len)),
                     }));
                 }
-                let required = LEN_SIZE + total_len;
+                let required = LEN_SIZE
+                    .checked_add(total_len)
+                    .ok_or_else(|| bad_record_size(total_len))?;
                 if src.remaining() < required {
                     return Ok(None);
                 }
@@ -231,8 +244,9 @@ impl<K: RecognizerReadable, V: RecognizerReadable> Decoder for MapOperationDecod
                                 break Ok(None);
                             }
                             let key_len = header.get_u64() as usize;
-                            let value_len = if let Some(l) =
-                                total_len.checked_sub(key_len + LEN_SIZE + TAG_SIZE)
+                            let value_len = if let Some(l) = key_len
+                                .checked_add(LEN_SIZE + TAG_SIZE)
+                                .and_then(|n| total_len.checked_sub(n))
                             {
                                 l
                             } else {
